@@ -148,6 +148,9 @@ def scenarios():
     S.append(("raw-onebyte", b"", Op("raw_command", b"version", end_tokens=b"\n"), {}))
     S.append(("raw-overlap", setcmd(b"k", b"aaaab-tail"), Op("raw_command", b"get k", end_tokens=b"aab"), {}))
     S.append(("raw-overlap2", setcmd(b"k", b"ababac"), Op("raw_command", b"get k", end_tokens=b"abac"), {}))
+    S.append(("raw-keyword-ERROR", setcmd(b"k", b"x\r\nERROR: oops!"), Op("raw_command", b"get k", end_tokens=b"END\r\n"), {}))
+    S.append(("raw-keyword-SERVER_ERROR", setcmd(b"k", b"SERVER_ERROR y\r\nCLIENT_ERROR z"), Op("raw_command", b"get k", end_tokens=b"\r\nEND\r\n"), {}))
+    S.append(("get-keyword-value", setcmd(b"k", b"ERROR\r\nEND\r\nVALUE"), Op("get", "k"), {}))
     S.append(("raw-str-token", b"", Op("raw_command", "version", end_tokens="\r\n"), {}))
     S.append(("raw-config", b"", Op("raw_command", b"config get cluster", end_tokens=b"\n\r\nEND\r\n"), {}))
     return S
